@@ -77,6 +77,7 @@ type runner struct {
 	envId uid.ID
 	ti    mesos.TaskInfo
 
+	stormWg    sync.WaitGroup
 	childT0    time.Time // when the first leader announcement was observed
 	lastKillAt time.Time
 }
@@ -273,6 +274,9 @@ func (r *runner) buildTaskInfo() mesos.TaskInfo {
 		"controlPort": c.Port,
 		"controlMode": mode,
 	}
+	if c.UserName != "" {
+		tci["user"] = c.UserName
+	}
 	data, _ := json.Marshal(tci)
 	r.envId = uid.New()
 	envStr := r.envId.String()
@@ -394,6 +398,20 @@ func (r *runner) transitionData(s Step) []byte {
 	return b
 }
 
+// bigTransitionData is a transition request whose arguments map is kb kilobytes of JSON.
+func (r *runner) bigTransitionData(s Step) []byte {
+	cmd := controlcommands.NewMesosCommand_Transition(r.envId, []controlcommands.MesosCommandTarget{{
+		AgentId: r.ti.AgentID, ExecutorId: r.ti.Executor.ExecutorID, TaskId: r.ti.TaskID}}, s.Src, s.Evt, s.Dst, nil)
+	args := controlcommands.PropertyMap{}
+	val := strings.Repeat("v", 80)
+	for i := 0; i*100 < s.PayloadKB*1024; i++ {
+		args[fmt.Sprintf("verif.key.%07d", i)] = val
+	}
+	cmd.Arguments = args
+	b, _ := json.Marshal(cmd)
+	return b
+}
+
 func errStr(err error) string {
 	if err == nil {
 		return ""
@@ -498,6 +516,36 @@ func runOneCase(path string) {
 		case "await":
 			r.awaitCond(s)
 			continue
+		case "storm":
+			if !launched {
+				r.rec(Rec{Ev: "skipped", Name: s.Op, Msg: "task not launched"})
+				continue
+			}
+			data := r.bigTransitionData(s)
+			task := r.task
+			start := time.Now()
+			r.stormWg.Add(1)
+			go func() {
+				defer r.stormWg.Done()
+				for _, off := range s.Offsets {
+					if d := time.Until(start.Add(time.Duration(off) * time.Millisecond)); d > 0 {
+						time.Sleep(d)
+					}
+					// as handlers.go:handleMessageEvent: every request on its own goroutine
+					r.startOp("bigtransition:"+s.Evt, func() (string, string) {
+						cmd, err := task.UnmarshalTransition(data)
+						if err != nil {
+							return "", "unmarshal: " + errStr(err)
+						}
+						resp := task.Transition(cmd)
+						if resp == nil {
+							return "", "nil response"
+						}
+						return resp.CurrentState, resp.ErrorString
+					})
+				}
+			}()
+			continue
 		case "launch":
 			// as executor/handlers.go:handleLaunchEvent: NewTask, then Launch; the task only
 			// becomes addressable by later requests if Launch returned nil
@@ -565,6 +613,7 @@ func runOneCase(path string) {
 		}
 	}
 	// join everything still in flight
+	r.stormWg.Wait()
 	r.mu.Lock()
 	ops := append([]*opHandle(nil), r.ops...)
 	r.mu.Unlock()
